@@ -49,6 +49,14 @@ def outcome : Plan → Nat → Int × Bool
   | .killed s, _ => (-(s : Int), true)
   | .okUntil n c, a => if a < n then (0, true) else (c, false)
 
+/-- a job is a list of commands (a compute step, a tolerant collect step, …): the runner starts them in order and
+stops at the first non-zero return code, which is the job's; the return file exists if a started command wrote it -/
+def jobOutcome : List Plan → Nat → Int × Bool
+  | [], _ => (0, false)
+  | p :: ps, a =>
+    if (outcome p a).1 ≠ 0 then outcome p a
+    else ((jobOutcome ps a).1, (outcome p a).2 || (jobOutcome ps a).2)
+
 /-- one cache file `<job>.out` -/
 structure Ent where
   tag : String              -- stands for `input_hash`: the argument tag the input was prepared with
@@ -63,13 +71,13 @@ structure St where
 
 structure Run where
   tag : String                 -- the `args` of this run
-  plan : String → Plan         -- scripted behaviour per job name
+  plan : String → List Plan    -- scripted behaviour per job name: one plan per command of the job
   strict : Bool := true
 
 /-- what `_molli_run` records for a job executed for the `a`-th time (C17: the failing code, else 0 only if
 the requested file exists) -/
 def entOf (r : Run) (j : String) (a : Nat) : Ent :=
-  let (c, wrote) := outcome (r.plan j) a
+  let (c, wrote) := jobOutcome (r.plan j) a
   { tag := r.tag
     code := if c ≠ 0 then c else if wrote then 0 else 1
     payload := if wrote then some (j ++ ":" ++ r.tag ++ ":" ++ toString a) else none }
